@@ -40,8 +40,8 @@ PLAN = {
 }
 
 KIND_WEIGHTS = {
-    "quick": [("fit", 36), ("zhit", 34), ("kk_ext", 10), ("kk_cnls", 12), ("bht", 5), ("mrq", 3)],
-    "thorough": [("fit", 32), ("zhit", 30), ("kk_ext", 16), ("kk_cnls", 12), ("bht", 5), ("mrq", 5)],
+    "quick": [("fit", 34), ("zhit", 32), ("kk_ext", 9), ("kk_cnls", 12), ("bht", 5), ("mrq", 3), ("kk_de", 2), ("lm", 3)],
+    "thorough": [("fit", 30), ("zhit", 28), ("kk_ext", 15), ("kk_cnls", 12), ("bht", 5), ("mrq", 4), ("kk_de", 3), ("lm", 3)],
 }
 
 
